@@ -9,6 +9,11 @@ ProbesAll == {P("is_leap", 2000, 0), P("days_in_year", 2004, 0), P("days_in_mont
               P("months_days", 2004, 0), P("ord_of_cal", 2004, 0), P("week_of_cal", 2019, 0)}
 ProbesSmall == {P("days_in_month", 2004, 2), P("weeks_in_year", 2020, 0), P("year_range", 1999, 2001), P("week_start_ord", 2021, 0)}
 NoFns == {}
+NoCli == {}
+CliO == {"", "360day", "gregorian"}
+CliE == {"", "365day", "366day"}
+Off == FALSE
+On == TRUE
 U1 == {"days_in_year"}  U2 == {"days_in_month"}  U3 == {"weeks_in_year"}  U4 == {"year_range"}
 U5 == {"week_start_cal"}  U6 == {"week_start_ord"}  U7 == {"since_1ad"}  U8 == {"months_days"}
 U9 == {"ord_of_cal"}  U10 == {"week_of_cal"}
